@@ -60,6 +60,13 @@ class MarkovCheck(object):
                 c['tmax'] = r.choice([0, 0.0])        # horizon exactly zero (falsy) after a negative start
             c['kind'] = 'e2' if k % 2 == 0 else 'fast'
             c['seed'] = cs
+            if r.random() < 0.15:
+                # the law is scale-free: the same epidemic in a time unit 1e10 times smaller / 1e8 times larger
+                sc = r.choice([1e-10, 1e8])
+                c['tau'], c['gamma'] = c['tau'] * sc, c['gamma'] * sc
+                if c['tmax'] != 'inf' and c['tmax'] != 0:
+                    c['tmax'] = c['tmin'] + (c['tmax'] - c['tmin']) / sc
+                c['rate_scale'] = sc
             cases.append(c)
         # --- e3: exhaustive small graphs
         nmax = 4 if q else 5
